@@ -258,10 +258,16 @@ func VP_C17_Distance() {
 func VP_C17_Monotone() {
 	k := vpCase("k")
 	var j1, j2 float64
-	if vpCase("mode") == 1 {
+	if mode := vpCase("mode"); mode == 1 {
 		j1 = math.Float64frombits(vpUint64("j1bits"))
 		j2 = math.Float64frombits(vpUint64("j2bits"))
 		vpAssume(0 <= j1 && j1 <= j2 && j2 <= 1)
+	} else if mode == 2 {
+		// arbitrary float64 similarities within one binade [2^-e, 2^-e+1)
+		// (the binade splits the search and bounds the solver's work)
+		j1, j2 = vpFloat64("j1"), vpFloat64("j2")
+		lo := math.Ldexp(1, -vpCase("e"))
+		vpAssume(lo <= j1 && j1 <= j2 && j2 <= 2*lo && j2 <= 1)
 	} else {
 		n := vpCase("n")
 		s2 := vpConcrete(vpIntRange("s2", 0, n))
@@ -271,5 +277,26 @@ func VP_C17_Monotone() {
 	f1, f2 := FromJaccard(j1, k), FromJaccard(j2, k)
 	vpAssert(f1 >= f2, "FromJaccard is non-increasing in j")
 	vpAssert(f1 >= 0 && f1 <= 1 && f2 >= 0 && f2 <= 1, "FromJaccard lies in [0,1]")
+	vpReach("end")
+}
+
+// VP_C17_Range: for EVERY float64 j in [0,1] (all bit patterns, a symbolic
+// IEEE value) and every k in [1,kmax], FromJaccard(j,k) is a number in [0,1],
+// 1 at j = 0 and 0 at j = 1. math.Log is an uninterpreted function constrained
+// by the contract of a logarithm (sign, special values, monotone), so the
+// result does not depend on how math.Log rounds.
+func VP_C17_Range() {
+	j := vpFloat64("j")
+	vpAssume(0 <= j && j <= 1)
+	k := vpIntRange("k", 1, vpCase("kmax"))
+	f := FromJaccard(j, k)
+	vpAssert(f == f, "FromJaccard of a similarity is a number")
+	vpAssert(0 <= f && f <= 1, "FromJaccard lies in [0,1]")
+	if j == 0 {
+		vpAssert(f == 1, "distance 1 for similarity 0")
+	}
+	if j == 1 {
+		vpAssert(f == 0, "distance 0 for similarity 1")
+	}
 	vpReach("end")
 }
